@@ -725,10 +725,8 @@ func partC(r *mc.Run) {
 			r.Sample(map[string]any{"part": "c", "layout": l.String(), "output": cr.Out})
 		}
 	}
-	pool := mc.NewPool(mc.NWorkers(), []string{"GOMAXPROCS=2"})
-	defer pool.Close()
 	// a program costs 0.1–0.5 s; 20 min only classifies a hang
-	err := pool.Run(len(grid), func(i int) interface{} { return CJob{gens[i].src} }, 20*time.Minute, func(res mc.Result) {
+	err := runBatched(len(grid), 16*mc.NWorkers(), []string{"GOMAXPROCS=2"}, func(i int) interface{} { return CJob{gens[i].src} }, 20*time.Minute, func(res mc.Result) {
 		if res.Status != "ok" {
 			mu.Lock()
 			failed = append(failed, res.Index)
@@ -780,6 +778,25 @@ func partC(r *mc.Run) {
 	if okRuns.Load() < int64(len(grid))/2 && r.ViolationCount() == 0 {
 		r.HarnessError("vacuous: only %d of %d programs produced a panic line", okRuns.Load(), len(grid))
 	}
+}
+
+// runBatched is Pool.Run with the worker processes replaced after every batch: a long-lived
+// process keeps ~2 MB per loaded program reachable (loader/compiler globals), so workers are
+// recycled to keep memory modest.
+func runBatched(njobs, batch int, env []string, job func(i int) interface{}, horizon time.Duration, handle func(mc.Result)) error {
+	for lo := 0; lo < njobs; lo += batch {
+		hi := min(lo+batch, njobs)
+		pool := mc.NewPool(mc.NWorkers(), env)
+		err := pool.Run(hi-lo, func(i int) interface{} { return job(lo + i) }, horizon, func(res mc.Result) {
+			res.Index += lo
+			handle(res)
+		})
+		pool.Close()
+		if err != nil {
+			return err
+		}
+	}
+	return nil
 }
 
 func main() {
